@@ -124,6 +124,19 @@ CLAIMS["C15"] = dict(
     design_ref="DESIGN.md section 4, C15",
     technique="static analysis: symbolic execution of straight-line closures into exact rational normal forms; factor/field agreement between sibling functions")
 
+CLAIMS["C20"] = dict(
+    category="other",
+    text=("Decides: (D1) no method reachable from VTKWriter.write() stores into or mutates the writer's accumulated state "
+          "(attributes set by __init__/add_*), directly or through an alias -- the structural condition for 'writing twice "
+          "gives identical files'; (D2) by abstract interpretation of array record counts as exact polynomials in symbolic sizes "
+          "(written points, mesh nodes, elements, spheres, contact edges, nodes per element): each of POINTS/CELLS/CELL_TYPES "
+          "declares exactly the records written before the next header, the CELLS size equals the integers written, "
+          "POINT_DATA == POINTS and CELL_DATA == CELL_TYPES == CELLS, every admitted nodal/cell field carries the declared "
+          "record count after padding, and the add_* guards admit exactly those counts. The numeric round trip of values and "
+          "whether connectivity ids refer to written points for subset output nodes are NOT decided."),
+    design_ref="DESIGN.md section 4, C20",
+    technique="static analysis: effect (who-writes-self.*) analysis with alias tracking over the write() call cone; abstract interpretation of array lengths with symbolic sizes")
+
 NA = {}
 
 
